@@ -167,7 +167,9 @@ def run(prog, tier) -> Result:
                     if ok and eff:
                         m = eff[-1][3]
                         same_mode = (isinstance(m, NoneV) and isinstance(mode_v, NoneV)) or \
-                            (isinstance(m, EnumV) and isinstance(mode_v, EnumV) and m.member == mode_v.member)
+                            (isinstance(m, EnumV) and isinstance(mode_v, EnumV) and m.member == mode_v.member) or \
+                            (isinstance(mode_v, NoneV) and isinstance(m, EnumV) and getattr(m, "origin", None) == "default")
+                        # (no mode given: None is handed on, or the default mode as read at the time of this call)
                         if not same_mode:
                             return ("rounding mode not passed to the decimal path", repr(m))
                     return None if ok else ("decimal path quantizes with another quantum", f"{ex!r}; quantum {g!r}")
@@ -177,7 +179,9 @@ def run(prog, tier) -> Result:
                     if ok and eff:
                         m = eff[-1][3]
                         same_mode = (isinstance(m, NoneV) and isinstance(mode_v, NoneV)) or \
-                            (isinstance(m, EnumV) and isinstance(mode_v, EnumV) and m.member == mode_v.member)
+                            (isinstance(m, EnumV) and isinstance(mode_v, EnumV) and m.member == mode_v.member) or \
+                            (isinstance(mode_v, NoneV) and isinstance(m, EnumV) and getattr(m, "origin", None) == "default")
+                        # (no mode given: None is handed on, or the default mode as read at the time of this call)
                         if not same_mode:
                             return ("rounding mode not passed to the fraction path", repr(m))
                     return None if ok else ("fraction path: not the rounded exact quotient times the quantum",
